@@ -1,6 +1,6 @@
 """C01 — CQL value encoding conforms to the protocol and round-trips.
 
-Proof stage: Props/C01.vo (41 pinned theorems + 13 pinned Examples about Model/Cql.v, Model/CqlTyped.v, Model/Vint.v).
+Proof stage: Props/C01.vo (50 pinned theorems + 15 pinned Examples about Model/Cql.v, Model/CqlTyped.v, Model/Vint.v).
 Tie stage: harness/src/bin/c01.rs runs the real scylla-cql-core codec, ocaml/c01/driver evaluates
 the extracted model; census of the Rust enums / tables the model was written from.
 """
